@@ -214,6 +214,7 @@ func init() {
 			{H: "H_C02_NoTrace", K: 28, U: 3, Covers: 2},
 			{H: "H_C02_MutexNoTrace", K: 28, U: 3, Covers: 1},
 			{H: "H_C02_WriterPreference", K: 26, U: 3, TimeoutSec: 900},
+			{H: "H_C02_WriterPreference2", K: 30, U: 3, Preempt: 3, TimeoutSec: 900},
 			{H: "H_C01_Mutex3", K: 26, U: 3, Only: "stuck/"},
 			{H: "H_C01_RW_2R1W", K: 26, U: 3, Only: "stuck/"},
 			{H: "H_C01_RW_1R2W", K: 26, U: 3, Only: "stuck/"},
@@ -255,6 +256,7 @@ func init() {
 	plans["C05"] = Plan{
 		Quick: []Job{
 			{H: "H_C05_TwoDrivers", K: 44, U: 4, Prune: true, Preempt: 2, TimeoutSec: 900},
+			{H: "H_C05_RetryReplaced", K: 48, U: 3, Prune: true, Preempt: 2, TimeoutSec: 900},
 		},
 		Thorough: []Job{
 			{H: "H_C05_StateVsRestart", K: 48, U: 4, Prune: true, Preempt: 2, TimeoutSec: 6000, QueryMs: 5000000},
@@ -264,7 +266,14 @@ func init() {
 		Outside: "more than 2 concurrent drivers, more than 2 scripted operations, instances that exit on their own (see C14)",
 	}
 	plans["C14"] = Plan{
-		Quick: split(Job{H: "H_C14_Step", K: 60, U: 3, Prune: true, Preempt: 2, Fixes: c14Cases(false), TimeoutSec: 1200}, 12),
+		Quick: cat(
+			split(Job{H: "H_C14_Step", K: 60, U: 3, Prune: true, Preempt: 2, Fixes: c14Cases(false), TimeoutSec: 1200}, 11),
+			// two operations: fail, re-run (restart / backoff), then a context change or restart rule
+			[]Job{{H: "H_C14_Machine2B", K: 80, U: 3, Prune: true, Preempt: 2, TimeoutSec: 1200,
+				Fixes: []string{"o0=2,o1=1,op0=0,op1=3", "o0=2,o1=1,op0=5,op1=3"}}},
+			[]Job{{H: "H_C14_Machine2B", K: 80, U: 3, Prune: true, Preempt: 2, TimeoutSec: 1200,
+				Fixes: []string{"o0=2,o1=1,op0=0,op1=1", "o0=2,o1=1,op0=0,op1=4"}}},
+		),
 		Thorough: cat(
 			split(Job{H: "H_C14_Machine2B", K: 80, U: 3, Prune: true, Preempt: 2, Fixes: c14Cases(true), TimeoutSec: 6000}, 12),
 		),
@@ -296,6 +305,7 @@ func init() {
 			{H: "H_C11_Promise_CancelCh", K: 34, U: 3, Covers: 1},
 			{H: "H_C11_CanceledResult", K: 30, U: 6, Spin: true},
 			{H: "H_C11_Container", K: 34, U: 4, Spin: true, Preempt: 2, Covers: 2, TimeoutSec: 900},
+			{H: "H_C11_ReplaceBack", K: 40, U: 4, Spin: true, Preempt: 2, TimeoutSec: 900},
 		},
 		Thorough: []Job{
 			{H: "H_C11_Container", K: 34, U: 4, Spin: true, TimeoutSec: 3000, QueryMs: 2400000},
@@ -358,6 +368,7 @@ func init() {
 		Quick: []Job{
 			{H: "H_C07_RetrySurvivesSetKey", K: 48, U: 3, Prune: true, Preempt: 2, TimeoutSec: 1200},
 			{H: "H_C07_RestartOverlap", K: 40, U: 3, Prune: true, Preempt: 2, TimeoutSec: 1200},
+			{H: "H_C07_ResetDuringRetry", K: 48, U: 3, Prune: true, Preempt: 2, TimeoutSec: 1200},
 		},
 		Bounds:  "one key; (a) routine fails once, SetKey(k,false) (symbolic) lands while the retry timer is pending, then the backoff interval passes; (b) two RestartRoutine calls inside one exit latency, then ClearContext; schedules with at most 2 preemptions; K=40-48",
 		Outside: "more than one key, more than 2 restarts",
@@ -403,6 +414,7 @@ func init() {
 		Quick: []Job{
 			{H: "H_C09_Overlap", K: 30, U: 3, Prune: true, Preempt: 2, TimeoutSec: 900},
 			{H: "H_C09_NilCb", K: 24, U: 3, Prune: true, TimeoutSec: 900},
+			{H: "H_C09_StopStart", K: 40, U: 3, Prune: true, Preempt: 2, TimeoutSec: 900},
 		},
 		Bounds:  "one reference + two context replacements inside one resolver latency; AddRef(nil) concurrent with resolution; K<=30",
 		Outside: "more than 3 resolver calls",
